@@ -1,4 +1,74 @@
 package eng
 
-// VerifyLemmas generates the obligations of //@ lemma blocks tagged with property id.
-func (e *Engine) VerifyLemmas(id string) {}
+import (
+	"fmt"
+	"go/types"
+	"sort"
+
+	"golang.org/x/tools/go/ssa"
+)
+
+// VerifyLemmas generates the repository-wide obligations that do not belong to
+// one function. At present: one obligation per "final" field that the proofs of
+// this run relied on (kind "final"): over the SSA of EVERY function of the
+// repository, the field is stored to only through a pointer to a struct that
+// the storing function has just allocated itself (a composite literal / new):
+// that is what lets havocs leave the field alone.
+func (e *Engine) VerifyLemmas(id string) {
+	e.isFinal("") // load the declarations
+	var keys []string
+	for k := range e.finals {
+		if k != "" {
+			keys = append(keys, k)
+		}
+	}
+	sort.Strings(keys)
+	if len(keys) == 0 {
+		return
+	}
+	bad := map[string][]string{}
+	for _, fn := range e.P.AllFuncs("") {
+		for _, b := range fn.Blocks {
+			for _, in := range b.Instrs {
+				st, ok := in.(*ssa.Store)
+				if !ok {
+					continue
+				}
+				fa, ok := st.Addr.(*ssa.FieldAddr)
+				if !ok {
+					continue
+				}
+				key := finalKeyOf(fa)
+				if key == "" || !e.finals[key] {
+					continue
+				}
+				if _, fresh := fa.X.(*ssa.Alloc); fresh {
+					continue // initialisation of a struct created here
+				}
+				bad[key] = append(bad[key], e.P.Pos(st.Pos()))
+			}
+		}
+	}
+	for _, k := range keys {
+		ob := &Obligation{Name: "final:" + k, Kind: "final", Props: []string{id}, Clause: "the field " + k + " is assigned only where its struct is created", PosStr: "-"}
+		if len(bad[k]) > 0 {
+			ob.Err = fmt.Sprintf("assigned at %v", bad[k])
+		} else {
+			ob.Status = "proved"
+			ob.Solver = "ssa-scan"
+		}
+		e.Obls = append(e.Obls, ob)
+	}
+}
+
+func finalKeyOf(fa *ssa.FieldAddr) string { return fieldKeyOfPtr(fa) }
+
+func fieldKeyOfPtr(fa *ssa.FieldAddr) (key string) {
+	defer func() {
+		if recover() != nil {
+			key = ""
+		}
+	}()
+	p := fa.X.Type().Underlying().(*types.Pointer)
+	return fieldKey(p.Elem(), fa.Field)
+}
